@@ -516,6 +516,11 @@ def explore(ctx, factor, bs):
 
     rng = ctx.rng
     big = not ctx.quick()
+    if factor > 1 and ctx.mismatches and all(m["what"].startswith("e2e:") for m in ctx.mismatches):
+        # only the end-to-end text comparison differs (every C01 observation agreed, the oracle held on every form of
+        # the first pass): the mismatches carry the workbooks and the first differing characters
+        ctx.notes["search_skipped"] = "only byte-level differences of the end-to-end composition; the mismatches carry the workbooks"
+        return
     if factor > 1 and ctx.mismatches and all(m["what"].startswith("implementation rejects") for m in ctx.mismatches):
         # the model accepts documents the implementation rejects: a rejected conversion has no output the
         # oracle could fail on, so a search for an oracle failure is pointless; the mismatches carry the forms
@@ -557,6 +562,12 @@ def explore(ctx, factor, bs):
             form = c01_gen.general_form(rng, big=True)
             form_case(ctx, form, via="xlsx", fallback=rng.choice(["book", "My-Form_1"]), stream="general")
     dom_cases(ctx, ctx.pick(300, 4000) * (1 if factor == 1 else 2))
+    # end-to-end composition (`Pyxv.Convert.convert`, harness/props/e2e.py): the XForm text of the model must equal the
+    # implementation's byte for byte in both modes on every generated fragment form; a difference is a correspondence
+    # mismatch of C01 (reported with the form)
+    from props import e2e
+
+    e2e.e2e_corr(ctx, ctx.pick(300, 3000) * (1 if factor == 1 else 2), big=big)
     tot = ctx.dist.get("model:answered", 0) + ctx.dist.get("model:unsupported", 0)
     ctx.notes["fragment_share"] = {"answered": ctx.dist.get("model:answered", 0), "unsupported": ctx.dist.get("model:unsupported", 0),
                                    "share": round(ctx.dist.get("model:answered", 0) / tot, 4) if tot else None}
